@@ -117,7 +117,7 @@ def gen_cfg(rnd, explainer, exact, allow_discontinuous=False):
         "names": rnd.choice(["str", "str", "int", "float"]),
         "storage": gen_storage_spec(rnd),
         "imputer": rnd.choice(["joint", "joint", "product", "default", "custom", "library-default"]),
-        "model": rnd.choice(["scalar", "scalar", "multi", "grow", "ignore", "constant", "linear", "positional", "positional"]),
+        "model": rnd.choice(["scalar", "scalar", "multi", "grow", "ignore", "constant", "linear", "positional", "positional", "antisym"]),
         "extras": rnd.choice([0, 0, 1, 2]),          # features present in the data but not explained (the model reads them)
         "warm_start": rnd.choice([0, 0, 0, 2]),      # observations put into the storage via update_storage() before the first call
         "loss": rnd.choice(["hash", "hash", "hash", "sq", "zero"]) if exact else rnd.choice(["sq", "abs", "sq", "zero"]),
@@ -128,9 +128,9 @@ def gen_cfg(rnd, explainer, exact, allow_discontinuous=False):
         "shuffle_keys": rnd.random() < 0.3,          # observations list their keys in varying order (key-based models only)
         "keyword_call": rnd.random() < 0.3,          # explain_one(x_i=..., y_i=...) instead of positional arguments
         "names_as_tuple": False,
-        "out_type": "plain" if exact else rnd.choice(["plain", "plain", "np64", "int", "np0d"]),   # NumPy scalars as model outputs / loss values
+        "out_type": "plain" if exact else rnd.choice(["plain", "plain", "np64", "int", "np0d", "u8-loss", "arr-loss"]),   # NumPy scalars as model outputs / loss values
         "label_keys": rnd.choice(["int", "int", "str"]),                                     # keys of multi-label outputs
-        "x_type": rnd.choice(["dict", "dict", "OrderedDict", "subclass"]),                   # observations as dict subclasses
+        "x_type": rnd.choice(["dict", "dict", "OrderedDict", "subclass", "Counter"]),                   # observations as dict subclasses
         "memo_model": rnd.random() < 0.25,
         "manual_updates": rnd.random() < 0.2,        # the user also feeds the storage through update_storage() between explanations                                                   # model hands out cached dict objects
     }
@@ -147,6 +147,8 @@ def gen_cfg(rnd, explainer, exact, allow_discontinuous=False):
         cfg["extras"] = 0
     if cfg["model"] == "positional":
         cfg["shuffle_keys"] = False
+    if cfg["out_type"] == "u8-loss" and explainer != "pfi":
+        cfg["out_type"] = "plain"       # (SAGE subtracts losses from each other: unsigned modular arithmetic is not a real-valued loss)
     if cfg["model"] in ("multi", "grow") and cfg["loss"] in ("sq", "abs") and not exact:
         pass
     return cfg
@@ -224,6 +226,9 @@ class Scenario:
             x = collections.OrderedDict(x)
         elif xt == "subclass":
             x = _Obs(x)
+        elif xt == "Counter" and all(isinstance(v, (int, float)) for v in x.values()):
+            import collections
+            x = collections.Counter(x)        # a dict subclass whose update() ADDS instead of replacing
         return x, y
 
     def call_kwargs(self):
